@@ -392,12 +392,33 @@ pub unsafe extern "C" fn close(fd: c_int) -> c_int {
     unsafe { f(fd) }
 }
 
+/// Loopback sockets of a simulated run are a lossless pipe wide enough for every scripted body:
+/// with the kernel's default (auto-tuned) buffers a large write is cut short at a point that
+/// depends on real timing, which the exploration cannot own. All back-pressure a scenario
+/// needs is injected by the simulation instead. (4 MiB, the host's wmem_max / rmem_max.)
+pub fn wide_socket_buffers(fd: c_int) {
+    let size: c_int = 4 * 1024 * 1024;
+    for opt in [libc::SO_SNDBUF, libc::SO_RCVBUF] {
+        unsafe { libc::setsockopt(fd, libc::SOL_SOCKET, opt, &size as *const _ as *const c_void, std::mem::size_of::<c_int>() as u32) };
+    }
+}
+
+fn is_stream_socket(fd: c_int) -> bool {
+    let mut ty: c_int = 0;
+    let mut len = std::mem::size_of::<c_int>() as libc::socklen_t;
+    let r = unsafe { libc::getsockopt(fd, libc::SOL_SOCKET, libc::SO_TYPE, &mut ty as *mut _ as *mut c_void, &mut len) };
+    r == 0 && ty == libc::SOCK_STREAM
+}
+
 #[unsafe(no_mangle)]
 pub unsafe extern "C" fn accept4(fd: c_int, addr: *mut libc::sockaddr, len: *mut libc::socklen_t, flags: c_int) -> c_int {
     let f = real_fn!(S, c"accept4", unsafe extern "C" fn(c_int, *mut libc::sockaddr, *mut libc::socklen_t, c_int) -> c_int);
     let r = unsafe { f(fd, addr, len, flags) };
     if subject_call() {
         let e = unsafe { *libc::__errno_location() };
+        if r >= 0 && is_stream_socket(r) {
+            wide_socket_buffers(r);
+        }
         with_hooks(|h| h.on_accept(fd, r));
         set_errno(e);
     }
@@ -407,6 +428,9 @@ pub unsafe extern "C" fn accept4(fd: c_int, addr: *mut libc::sockaddr, len: *mut
 #[unsafe(no_mangle)]
 pub unsafe extern "C" fn connect(fd: c_int, addr: *const libc::sockaddr, len: libc::socklen_t) -> c_int {
     let f = real_fn!(S, c"connect", unsafe extern "C" fn(c_int, *const libc::sockaddr, libc::socklen_t) -> c_int);
+    if subject_call() && is_stream_socket(fd) {
+        wide_socket_buffers(fd);
+    }
     let r = unsafe { f(fd, addr, len) };
     if subject_call() {
         let e = unsafe { *libc::__errno_location() };
